@@ -264,6 +264,7 @@ def run_config(c):
             elif given == "zero":
                 pass
         opts["efield"] = sup
+        sup_zero_before = bool(not np.any(sup.field))
         if c.get("always_return"):
             opts["always_return"] = True
     rec = SolveRecorder(o).install(sup if dtype_ok else None)
@@ -302,7 +303,7 @@ def run_config(c):
            "alwaysRet": bool(c.get("always_return", False)),
            "maxit": int(c["maxit"]),
            "supGood": bool(supev and supev[0]["cls"] == "ok"),
-           "supZero": bool(given == "zero")}
+           "supZero": bool(sup_zero_before)}
     fin = None
     if err is None:
         caller = retf if retf is not None else sup
